@@ -130,6 +130,32 @@ static void run_case(uint64_t idx)
 		if (ret != LZMA_PROG_ERROR) { hx_violation("C11", "use-before-init-accepted", idx, "lzma_code on LZMA_STREAM_INIT handle returned %s; %s", lzma_ret_name(ret), desc); viol = true; }
 		hx_eval();
 	}
+	// Handle reuse: a quarter of the histories first initialise the same lzma_stream as ANOTHER coder
+	// (and use it a little) and then initialise the coder under test without lzma_end(). Nothing of the
+	// previous coder - in particular its set of supported actions - may survive.
+	if (vrng_chance(&r, 1, 4)) {
+		static const int prev_kinds[] = { 0, 1, 2, 3, 4 };
+		int pk = prev_kinds[vrng_below(&r, 5)];
+		lzma_ret pr;
+		static lzma_options_lzma po; lzma_lzma_preset(&po, 0);
+		lzma_filter pf[2] = { { LZMA_FILTER_LZMA2, &po }, { LZMA_VLI_UNKNOWN, NULL } };
+		switch (pk) {
+		case 0: pr = lzma_easy_encoder(&strm, 0, LZMA_CHECK_CRC32); break;           // all five actions
+		case 1: pr = lzma_raw_encoder(&strm, pf); break;                                 // RUN SYNC_FLUSH FINISH
+		case 2: { lzma_mt pm = { .threads = 1, .block_size = 4096, .preset = 0, .check = LZMA_CHECK_CRC32 }; pr = lzma_stream_encoder_mt(&strm, &pm); break; }
+		case 3: pr = lzma_stream_decoder(&strm, UINT64_MAX, 0); break;                  // RUN FINISH
+		default: pr = lzma_microlzma_encoder(&strm, &po); break;                         // FINISH only
+		}
+		if (pr == LZMA_OK && pk != 4 && vrng_chance(&r, 1, 2)) {
+			uint8_t pin[64] = "previous coder data previous coder data", pout[256];
+			strm.next_in = pin; strm.avail_in = pk == 3 ? 0 : 40; strm.next_out = pout; strm.avail_out = sizeof(pout);
+			(void)lzma_code(&strm, LZMA_RUN);
+			if (vrng_chance(&r, 1, 2) && pk != 3) { strm.next_out = pout; strm.avail_out = sizeof(pout); (void)lzma_code(&strm, LZMA_FINISH); }
+		}
+		strm.next_in = NULL; strm.avail_in = 0; strm.next_out = NULL; strm.avail_out = 0;
+		hx_count("handle_reuse_histories", 1);
+		hx_eval();
+	}
 	lzma_ret iret = init_handle(&c, &strm, &r);
 	if (iret != LZMA_OK) { hx_count("init_rejected", 1); goto end_case; }
 	m.state = M_RUN;
